@@ -247,6 +247,9 @@ WordMatches(fld, w) ==
 PairMatches(exp, words, k) ==
   exp[k].t \in {"date", "edate"} =>
      (words[k + 1].fok /\ words[k].i >= 0 /\ words[k + 1].f >= 0 /\ words[k + 1].f <= 24
+        \* YYJJJ names a day that exists (99366 is not a spelling of 00001)
+        /\ (words[k].i % 1000) >= 1
+        /\ (words[k].i % 1000) <= DaysInYear("std", PivotYear(words[k].i \div 1000))
         /\ InstOf(words[k].i, words[k + 1].f) = exp[k].v)
 \* the concrete words the reference encoder writes for a field (the end of an
 \* interval at midnight as hour 24 of the same day when c.h24, else hour 0 of
